@@ -268,6 +268,9 @@ func negotiateServer(ctx context.Context, identity, password string, permissions
 		if err != nil {
 			return 0, nil, err
 		}
+		if err = w.Flush(); err != nil {
+			return 0, nil, err
+		}
 		return Authn, session.Conn(), nil
 	}
 
@@ -278,6 +281,9 @@ func negotiateServer(ctx context.Context, identity, password string, permissions
 		},
 	))
 	if err != nil {
+		return 0, nil, err
+	}
+	if err = w.Flush(); err != nil {
 		return 0, nil, err
 	}
 	return Authn, session.Conn(), nil
